@@ -810,5 +810,8 @@ PROPS["C13"]["explanation"] += " (IDXCOUNT) an index that goes on to address an 
 PROPS["C19"]["rules"] = PROPS["C19"]["rules"] + [rules_tools.rule_field_table_capacity]
 PROPS["C19"]["explanation"] += " (FIELDCAP) a local per-field table indexed up to a Vdata's field count has VSFIELDMAX elements."
 
+PROPS["C11"]["rules"] = PROPS["C11"]["rules"] + [rules_ann.rule_directory_slot_live]
+PROPS["C11"]["explanation"] += " (SLOTLIVE) a DFAN directory slot's object tag/ref is read only under a test of that slot's annref."
+
 NOT_APPLICABLE = {}
 
